@@ -97,10 +97,11 @@ const (
 	brkBool
 	brkArray
 	brkNull // (not in C08's list: used by C04 only)
+	brkCaseName // the pointer names an entry that differs from an existing one by letter case only
 	nBreaks
 )
 
-var breakNames = []string{"ok", "pointer-nowhere", "document-missing", "target-string", "target-number", "target-boolean", "target-array", "target-null"}
+var breakNames = []string{"ok", "pointer-nowhere", "document-missing", "target-string", "target-number", "target-boolean", "target-array", "target-null", "pointer-case-variant"}
 
 // breakRef rewrites a (correct) reference so that it is unresolvable in the given way.
 func breakRef(ref string, mode int) string {
@@ -131,6 +132,30 @@ func breakRef(ref string, mode int) string {
 		return docPart + "#/x-bad/A"
 	case brkNull:
 		return docPart + "#/x-bad/Z"
+	case brkCaseName:
+		i := strings.Index(ref, "#")
+		if i < 0 {
+			return ref + "#/definitions/Missing"
+		}
+		frag := ref[i:]
+		j := strings.LastIndex(frag, "/")
+		if j < 0 {
+			return docPart + "#/definitions/Missing"
+		}
+		last := frag[j+1:]
+		sw := strings.Map(func(r rune) rune {
+			switch {
+			case r >= 'a' && r <= 'z':
+				return r - 32
+			case r >= 'A' && r <= 'Z':
+				return r + 32
+			}
+			return r
+		}, last)
+		if sw == last {
+			return docPart + "#/definitions/Missing"
+		}
+		return docPart + frag[:j+1] + sw
 	}
 	return ref
 }
